@@ -124,7 +124,13 @@ async fn run_srv(tok: &[&str]) -> String {
         cmd.arg(f);
     }
     if peer_cert != "none" {
-        cmd.arg("-cert").arg(cert(peer_cert)).arg("-key").arg(key(peer_cert));
+        // `a+b`: a is the end entity, b is sent after it in the Certificate message
+        let mut parts = peer_cert.split('+');
+        let first = parts.next().unwrap();
+        cmd.arg("-cert").arg(cert(first)).arg("-key").arg(key(first));
+        if let Some(extra) = parts.next() {
+            cmd.arg("-cert_chain").arg(cert(extra));
+        }
     }
     cmd.stdin(Stdio::piped()).stdout(Stdio::piped()).stderr(Stdio::piped());
     let (reply, err) = match tokio::task::spawn_blocking(move || {
